@@ -107,7 +107,9 @@ Section Install.
   Inductive outcome :=
     | OGated
     | ORaised
-    | ODone (todo : plan_t) (rec' : alist) (updated : bool).
+    | ODone (todo : plan_t) (rec' : alist) (updated : bool)
+    | OFailed (todo : plan_t).   (* world model only: the installer was called and raised RequirementsNotFound; the
+                                    exception propagates, the record is not touched *)
 
   Definition install (allow : bool) (inst_after : str -> option str) (rec0 : alist) (t : table) : outcome :=
     match install_plan allow rec0 t with
@@ -131,7 +133,12 @@ Section Install.
     match snd x with Some v => aset (fst x) v env | None => aremove (fst x) env end.
 
   Record world := { w_env : alist; w_rec : alist }.
-  Record step_in := { si_ext : list (str * option str); si_allow : bool; si_files : list rfile; si_index : alist }.
+  Record step_in := {
+    si_ext : list (str * option str); si_allow : bool; si_files : list rfile; si_index : alist;
+    si_fail : list str               (* packages whose installation fails in this run (pip error) *)
+  }.
+  (* Home Assistant installs the requested requirements one by one and raises RequirementsNotFound if any failed *)
+  Definition fails (s : step_in) (p : str * option str) : bool := existsb (str_eqb (strip (fst p))) (si_fail s).
   Record step_out := {
     so_table : table;
     so_env_before : alist;
@@ -149,6 +156,11 @@ Section Install.
     | PRaised => ({| w_env := env0; w_rec := w_rec w |},
                   {| so_table := t; so_env_before := env0; so_out := ORaised; so_rec := w_rec w; so_env_after := env0 |})
     | PPlan rec1 todo =>
+        if existsb (fails s) todo then
+          let env1 := env_install (si_index s) env0 (filter (fun p => negb (fails s p)) todo) in
+          ({| w_env := env1; w_rec := w_rec w |},
+           {| so_table := t; so_env_before := env0; so_out := OFailed todo; so_rec := w_rec w; so_env_after := env1 |})
+        else
         let env1 := env_install (si_index s) env0 todo in
         let '(r, u) := install_finish (fun k => alookup k env1) (w_rec w) rec1 todo in
         ({| w_env := env1; w_rec := r |},
